@@ -187,33 +187,103 @@ def _read_places(st):
 
 
 def _list_item(ctx, lib):
-    """H-ITEM: each ListItem accessor touches the field it is named after"""
-    table = {"next": ("ret", "next"), "prev": ("ret", "prev"), "next_mut": ("ret", "next"), "prev_mut": ("ret", "prev"),
-             "is_used_base": ("ret", "used_base"), "is_used_index": ("ret", "used_index"),
-             "use_base": ("set", "used_base"), "use_index": ("set", "used_index")}
-    for name, (how, field) in table.items():
+    """H-ITEM: the list item as an abstract record (next, prev, used_base?, used_index?), independent of its representation
+    (two bools today; a packed flag byte would do).  next/prev accessors and their `_mut` twins address the same field; the flag
+    accessors satisfy the algebraic laws, evaluated at bit level (rules/bits.py) by composing getter after setter:
+        is_used_base(use_base(s))  = true           is_used_index(use_index(s)) = true
+        is_used_base(use_index(s)) = is_used_base(s)    is_used_index(use_base(s)) = is_used_index(s)
+        use_base / use_index leave next and prev alone;  a default item has both flags clear"""
+    from . import bits
+    W = 32
+    fields = {f["name"]: f for v_ in lib.adts[LI]["variants"] for f in v_["fields"]}
+    width = {"bool": 1, "u8": 8, "u16": 16, "u32": 32}
+    bodies = {}
+    for name in ("next", "prev", "next_mut", "prev_mut", "is_used_base", "is_used_index", "use_base", "use_index"):
         b = lib.one_body(adt=LI, name=name)
         if b is None:
             ctx.missing("H-ITEM", "ListItem::" + name)
-            continue
-        S = Sites(lib, b)
-        if how == "ret":
-            t = pnorm(S.root.ret())
-            ctx.check(m(F(Par(1), field, LI), t), "H-ITEM", b, "accessor:" + name, b.span,
-                      "ListItem::%s must access the `%s` field; returns %s" % (name, field, show(t)), show(t))
-        else:
-            ws = S.stores
-            ok = len(ws) == 1 and m(F(Par(1), field, LI), ws[0]["tgt"]) and is_const(ws[0]["val"], 1)
-            ctx.check(ok, "H-ITEM", b, "setter:" + name, b.span,
-                      "ListItem::%s must set `%s` to true; stores %s" % (name, field, [(show(s["tgt"]), show(s["val"])) for s in ws]))
+            return
+        bodies[name] = b
+    # next / prev: a field each, the `_mut` accessor hands out the same field
+    link = {}
+    for name in ("next", "prev"):
+        t = pnorm(Sites(lib, bodies[name]).root.ret())
+        tm = pnorm(Sites(lib, bodies[name + "_mut"]).root.ret())
+        ok = t[0] == "field" and m(Par(1), t[1]) and t[2] == LI and core.same(t, tm)
+        if ok:
+            link[name] = t[3]
+        ctx.check(ok, "H-ITEM", bodies[name], "accessor:" + name, bodies[name].span,
+                  "ListItem::%s and %s_mut must address one and the same field of the item; return %s / %s" % (name, name, show(t), show(tm)), show(t))
+    ctx.check(len(set(link.values())) == 2, "H-ITEM", bodies["next"], "accessor:distinct-links", bodies["next"].span,
+              "next and prev must be two different fields")
+
+    def state0():
+        return {fn_: bits.var_bits(fn_, width.get(f["ty"], 32), W) for fn_, f in fields.items()}
+
+    def env_of(state):
+        def env(t):
+            if t[0] == "field" and t[2] == LI and t[1][0] == "param" and t[1][1] == 1 and t[3] in state:
+                return state[t[3]]
+            return None
+        return env
+
+    def getter(name, state):
+        t = pnorm(FnView(lib, bodies[name]).root.ret())
+        try:
+            return bits.ev(t, env_of(state), W)[0]
+        except bits.Unknown:
+            return None
+
+    def after(name, state):
+        S = Sites(lib, bodies[name])
+        new = dict(state)
+        for st_ in S.stores:
+            tg = st_["tgt"]
+            if not (tg[0] == "field" and tg[2] == LI and tg[1][0] == "param" and tg[1][1] == 1 and tg[3] in state):
+                return None
+            try:
+                new[tg[3]] = bits.ev(st_["val"], env_of(state), W)
+            except bits.Unknown:
+                return None
+        if not S.stores:
+            return None
+        return new
+    s0 = state0()
+    laws = []
+    for setter, own, other in (("use_base", "is_used_base", "is_used_index"), ("use_index", "is_used_index", "is_used_base")):
+        s1 = after(setter, s0)
+        ok_set = s1 is not None and getter(own, s1) == bits.ONE
+        ctx.check(ok_set, "H-ITEM", bodies[setter], "setter:" + setter, bodies[setter].span,
+                  "after ListItem::%s the item must report %s() == true" % (setter, own))
+        ok_keep = s1 is not None and getter(other, s0) is not None and getter(other, s1) == getter(other, s0) and \
+            all(s1.get(link.get(k_)) == s0.get(link.get(k_)) for k_ in ("next", "prev") if k_ in link)
+        ctx.check(ok_keep, "H-ITEM", bodies[setter], "setter-keeps:" + setter, bodies[setter].span,
+                  "ListItem::%s must leave %s() and the next/prev links as they were (`=` where `|=` is meant erases the other flag: "
+                  "a slot taken as an index would forget that its number is already somebody's BASE)" % (setter, other))
+    for g in ("is_used_base", "is_used_index"):
+        v0 = getter(g, s0)
+        ctx.check(v0 is not None and v0 != bits.ONE and v0 != bits.ZERO, "H-ITEM", bodies[g], "accessor:" + g, bodies[g].span,
+                  "ListItem::%s must read the item's state" % g)
+    ctx.check(getter("is_used_base", s0) != getter("is_used_index", s0), "H-ITEM", bodies["is_used_base"], "accessor:distinct-flags",
+              bodies["is_used_base"].span, "the two flags must be independent pieces of state")
     # a default item is unused / unlinked
     d = [b for b in lib.bodies.values() if b.j.get("impl_adt") == LI and b.j.get("impl_trait") == "core::default::Default"]
     for b in d:
         t = pnorm(FnView(lib, b).root.ret())
+        ok = False
         if t[0] == "agg":
-            f = dict(t[3])
-            ok = all(x[0] == "call" and "Default::default" in str(x[1]) or is_const(x, 0) for x in f.values())
-            ctx.check(ok, "H-ITEM", b, "default-unused", b.span, "a default list item is unused")
+            sd = {}
+            for fname, ft in t[3]:
+                if ft[0] == "call" and "Default::default" in str(ft[1]):
+                    sd[fname] = [bits.ZERO] * W
+                else:
+                    try:
+                        sd[fname] = bits.ev(ft, lambda x: None, W)
+                    except bits.Unknown:
+                        sd = None
+                        break
+            ok = sd is not None and set(sd) == set(fields) and getter("is_used_base", sd) == bits.ZERO and getter("is_used_index", sd) == bits.ZERO
+        ctx.check(ok, "H-ITEM", b, "default-unused", b.span, "a default list item is unused (both flag queries false)")
 
 
 def _stores_via(S, accessor):
